@@ -58,4 +58,4 @@ def run(ck):
 
 
 def replay(ck, path):
-    run(ck)
+    engine.replay(ck, 'C06', path, run)
